@@ -1,4 +1,5 @@
 import PysphVerif.Lemmas.Stepper
+import PysphVerif.Lemmas.StepperHist
 import PysphVerif.Gen.Timesteps
 /-!
 # C04 — the compiled integrator performs `one_timestep` exactly as written
@@ -253,6 +254,118 @@ theorem shipped_programs_end_at_t_plus_dt (A : Arith τ) (t dt : τ) :
   rcases hx with h | h | h | h | h | h | h | h | h | h | h | h | h | h | h | h <;>
     subst h <;> rfl
 
+/-! ## histories of public calls on one integrator object
+
+`Model/StepperHist.lean`: between steps the user calls `set_nnps`,
+`set_post_stage_callback`, `set_fixed_h` (and may add particles).  The NNPS
+objects and callbacks are identified by numbers. -/
+
+section History
+open PysphVerif.StepperHist
+
+/-- For EVERY history of public calls (steps interleaved with `set_nnps`,
+`set_post_stage_callback`, `set_fixed_h`, particles added between steps) on
+one integrator object, the particles end in the state obtained by reading the
+history literally: each step executes `one_timestep` literally with "the
+integrator's NNPS" = the argument of the most recent `set_nnps` in the history
+text (`compute_accelerations` refreshes THAT object, `update_domain` re-creates
+ghosts through THAT object) and the callback of the most recent
+`set_post_stage_callback` (none after `None`); the setters themselves do not
+touch the particles.  Nothing an earlier step looked up survives into a later
+one. -/
+theorem history_refines_literal (A : Arith τ) (H : HWorld σ τ)
+    (hH : ∀ p, WorldAligned (H.view p)) (cfg : Cfg) (prog : Program) (p0 : PyRegs)
+    (ops : List (Op τ)) (r : Regs τ) (s : σ) :
+    (runHist A H cfg prog ops { py := p0, regs := r, world := s }).world =
+      literalHist A H cfg prog p0 ops s := by
+  have h := (runHist_eq_litHistGo A H hH cfg prog p0 ops [] r s).1
+  rw [pyAfter_nil] at h
+  exact h
+
+/-- the attributes of the object after a history are the arguments of the
+most recent setter calls in the history text -/
+theorem hist_attributes_are_last_set (A : Arith τ) (H : HWorld σ τ)
+    (hH : ∀ p, WorldAligned (H.view p)) (cfg : Cfg) (prog : Program) (p0 : PyRegs)
+    (ops : List (Op τ)) (r : Regs τ) (s : σ) :
+    (runHist A H cfg prog ops { py := p0, regs := r, world := s }).py = pyAfter p0 ops := by
+  have h := (runHist_eq_litHistGo A H hH cfg prog p0 ops [] r s).2
+  rw [pyAfter_nil, List.nil_append] at h
+  exact h
+
+/-- In the tracer world: after ANY history `ops`, the events a further step
+appends refresh (`nnps k`) and re-create ghosts through (`domain k`) no NNPS
+object other than the one given to the most recent `set_nnps` of `ops` (the
+initial one if there was none), and call no callback object other than the one
+given to the most recent `set_post_stage_callback`. -/
+theorem refresh_targets_last_set_nnps (A : Arith τ) (grow : String → Meth → Nat) (cfg : Cfg)
+    (prog : Program) (p0 : PyRegs) (ops : List (Op τ)) (r : Regs τ) (s : HState τ) (t dt : τ) :
+    let st := runHist A (htraceWorld grow) cfg prog ops { py := p0, regs := r, world := s }
+    ∃ new, (applyOp A (htraceWorld grow) cfg prog st (.step t dt)).world.events =
+        st.world.events ++ new ∧
+      (∀ k ∈ nnpsTargets new, k = (lastNnps ops).getD p0.nnps) ∧
+      (∀ c ∈ callbackTargets new, some c = (lastCallback ops).getD p0.callback) := by
+  intro st
+  have hpy : st.py = pyAfter p0 ops :=
+    hist_attributes_are_last_set A (htraceWorld grow) (htraceWorld_aligned grow) cfg prog p0 ops r s
+  have h := stepR_inv A ((htraceWorld grow).view st.py)
+    (OnlyTargets st.world.events st.py.nnps st.py.callback)
+    (htrace_keeps grow st.py st.world.events) (cfgAt cfg st.py) prog t dt (st.regs, st.world)
+    ⟨[], by simp, by simp [nnpsTargets], by simp [callbackTargets]⟩
+  obtain ⟨new, hn, ha, hb⟩ := h
+  refine ⟨new, hn, ?_, ?_⟩
+  · intro k hk
+    rw [ha k hk, hpy]
+    rfl
+  · intro c hc
+    rw [hb c hc, hpy]
+    rfl
+
+/-- `set_fixed_h` has no influence on what a step does: histories that differ
+only in their `set_fixed_h` calls (and the initial flag) leave the same
+particles.  (An `update_domain` that is skipped "because h is fixed" breaks
+this.) -/
+theorem fixed_h_is_irrelevant_to_steps (A : Arith τ) (H : HWorld σ τ) (cfg : Cfg) (prog : Program)
+    (ops : List (Op τ)) (st st' : HSt σ τ)
+    (h1 : st.py.nnps = st'.py.nnps) (h2 : st.py.callback = st'.py.callback)
+    (h3 : st.regs = st'.regs) (h4 : st.world = st'.world) :
+    (runHist A H cfg prog ops st).world =
+      (runHist A H cfg prog (ops.filter (fun o => o.fixedH?.isNone)) st').world := by
+  have hview : ∀ p p' : PyRegs, p.nnps = p'.nnps → p.callback = p'.callback →
+      H.view p = H.view p' ∧ cfgAt cfg p = cfgAt cfg p' := by
+    intro p p' a b
+    simp [HWorld.view, cfgAt, a, b]
+  suffices hs : ∀ (ops : List (Op τ)) (st st' : HSt σ τ), st.py.nnps = st'.py.nnps →
+      st.py.callback = st'.py.callback → st.regs = st'.regs → st.world = st'.world →
+      (runHist A H cfg prog ops st).world =
+        (runHist A H cfg prog (ops.filter (fun o => o.fixedH?.isNone)) st').world from
+    hs ops st st' h1 h2 h3 h4
+  intro ops
+  induction ops with
+  | nil => intro st st' _ _ _ h4; simpa [runHist] using h4
+  | cons op ops ih =>
+    intro st st' h1 h2 h3 h4
+    cases op with
+    | setFixedH b =>
+      simp only [Op.fixedH?, Option.isNone_some, Bool.false_eq_true, not_false_eq_true,
+        List.filter_cons_of_neg]
+      exact ih (applyOp A H cfg prog st (.setFixedH b)) st' h1 h2 h3 h4
+    | step t dt =>
+      have hv := hview st.py st'.py h1 h2
+      simp only [Op.fixedH?, Option.isNone_none, List.filter_cons_of_pos, runHist, List.foldl_cons]
+      refine ih _ _ h1 h2 ?_ ?_ <;> simp only [applyOp, hv.1, hv.2, h3, h4]
+    | setNnps k =>
+      simp only [Op.fixedH?, Option.isNone_none, List.filter_cons_of_pos, runHist, List.foldl_cons]
+      exact ih _ _ rfl h2 h3 h4
+    | setCallback c =>
+      simp only [Op.fixedH?, Option.isNone_none, List.filter_cons_of_pos, runHist, List.foldl_cons]
+      exact ih _ _ h1 rfl h3 h4
+    | addParticles d n =>
+      simp only [Op.fixedH?, Option.isNone_none, List.filter_cons_of_pos, runHist, List.foldl_cons]
+      refine ih _ _ h1 h2 h3 ?_
+      simp only [applyOp, h4]
+
+end History
+
 /-! ## non-vacuity -/
 
 /-- a concrete run: PEC integrator, two arrays (keyword order `b, a`), `b`
@@ -279,5 +392,28 @@ example : (step Arith.rat staticWorld exCfg
   decide +kernel
 
 example : WorldAligned (traceWorld (τ := Rat) (fun _ _ => 1)) := traceWorld_aligned _
+
+/-- a concrete history: step, replace the NNPS (object 0 -> 7) and the callback
+(object 0 -> 3), step again: the second step refreshes object 7 only -/
+example :
+    open PysphVerif.StepperHist in
+    nnpsTargets (runHist Arith.rat (htraceWorld (fun _ _ => 0)) exCfg
+      Gen.Timesteps.prog_pysph_sph_integrator_PECIntegrator
+      [.step 1 (1/4), .setNnps 7, .setCallback (some 3), .setFixedH true, .step (5/4) (1/4)]
+      { py := { nnps := 0, callback := some 0, fixedH := false },
+        regs := { origT := 0, t := 0, dt := 0 },
+        world := { events := [], sizes := [("b", 2, 1), ("a", 1, 2)] } }).world.events = [0, 0, 0, 7, 7, 7] := by
+  decide +kernel
+
+example :
+    open PysphVerif.StepperHist in
+    callbackTargets (runHist Arith.rat (htraceWorld (fun _ _ => 0)) exCfg
+      Gen.Timesteps.prog_pysph_sph_integrator_PECIntegrator
+      [.step 1 (1/4), .setNnps 7, .setCallback (some 3), .step (5/4) (1/4), .setCallback none,
+       .step (3/2) (1/4)]
+      { py := { nnps := 0, callback := some 0, fixedH := false },
+        regs := { origT := 0, t := 0, dt := 0 },
+        world := { events := [], sizes := [("b", 2, 1), ("a", 1, 2)] } }).world.events = [0, 0, 3, 3] := by
+  decide +kernel
 
 end PysphVerif.C04
